@@ -171,6 +171,7 @@ func runC17(p *core.Prog, r *core.Report) {
 	c17R7(p, r)
 	c17R8(p, r)
 	c17R9(p, r)
+	c17R10(p, r)
 }
 
 // c17R9: a response holds its host's throttle slot until it is closed. A function of the registry
@@ -1239,4 +1240,72 @@ func syncMapOfQueues(p *core.Prog, fn *ssa.Function, recv ssa.Value) bool {
 		}
 	}
 	return false
+}
+
+// c17R10: the slots a transaction holds are known through its context. AcquireMulti records the
+// queues it has taken in the context it returns, and a nested Acquire on one of them returns at once
+// when it finds that record. A request sent under a context that was not derived from the caller's
+// (context.Background for a clean-up after cancellation) acquires for real — on the queue whose slot
+// its own caller holds.
+func c17R10(p *core.Prog, r *core.Report) {
+	const rule = "C17.R10"
+	r.Rule(rule, "requests stay inside their transaction: in the schemes and the client, the context handed to a reghttp Do or to a queue Acquire is derived from a context the function was given (through context.With… or the warning wrapper), never from context.Background / TODO / WithoutCancel (the record of slots already held travels in the context)", 5)
+	isRoot := func(f *types.Func) bool {
+		return f != nil && f.Pkg() != nil && f.Pkg().Path() == "context" && (f.Name() == "Background" || f.Name() == "TODO" || f.Name() == "WithoutCancel")
+	}
+	through := func(c *ssa.Call) []int {
+		f := core.Callee(c)
+		if f == nil || isRoot(f) {
+			return nil
+		}
+		// wrappers: the first context-typed argument carries the values on
+		for i, a := range c.Call.Args {
+			if core.IsNamed(a.Type(), "context", "Context") {
+				return []int{i}
+			}
+		}
+		return nil
+	}
+	n := 0
+	lab := map[*ssa.Function]labeler{}
+	for _, rel := range []string{"scheme/reg", "scheme/ocidir", "."} {
+		for _, fn := range pkgFuncs(p, rel) {
+			core.Calls(fn, func(c ssa.CallInstruction) {
+				cal := core.Callee(c)
+				if cal == nil || cal.Pkg() == nil {
+					return
+				}
+				isDo := cal.Pkg().Path() == modPath("internal/reghttp") && cal.Name() == "Do"
+				isAcq := cal.Pkg().Path() == modPath(pqRel) && (cal.Name() == "Acquire" || cal.Name() == "AcquireMulti")
+				if !isDo && !isAcq {
+					return
+				}
+				var ctxArg ssa.Value
+				for _, a := range c.Common().Args {
+					if core.IsNamed(a.Type(), "context", "Context") {
+						ctxArg = a
+						break
+					}
+				}
+				if ctxArg == nil {
+					return
+				}
+				n++
+				bad := ""
+				for _, o := range core.Origins(ctxArg, core.SliceOpts{Through: through}) {
+					if o.Kind == core.OCall && isRoot(o.Callee()) {
+						bad = "context." + o.Callee().Name() + "()"
+					}
+				}
+				if lab[fn] == nil {
+					lab[fn] = labeler{}
+				}
+				r.Check(bad == "", rule, p.FuncName(fn), lab[fn].next("context of "+cal.Name()), p.Pos(c.Pos()),
+					"the context can be "+bad+": it does not carry the record of the slots the caller's transaction holds, so the request waits for a slot of a queue its own caller occupies")
+			})
+		}
+	}
+	if n == 0 {
+		r.MissingAnchor(rule, "reghttp Do / queue Acquire calls in the schemes")
+	}
 }
